@@ -679,6 +679,7 @@ impl Prop for C04 {
         }
         v
     }
+    fn fixed_in_asan(&self) -> bool { true }
     fn builds(&self, _tier: Tier) -> Vec<&'static str> {
         // `asan`: the fast build instrumented with AddressSanitizer (out-of-bounds reads that happen
         // to return the right answer are invisible otherwise)
